@@ -468,11 +468,11 @@ def run(ctx):
     ctx.extra["estimators"] = sorted(ids)
     # one search per shape: a defect on one kind of degenerate input does not hide the others
     for shape in SHAPES:
-        quick, thorough = (480, 19200) if shape == "explicit" else (180, 7200)
+        quick, thorough = (480, 12000) if shape == "explicit" else (180, 4800)
         ctx.hypothesis(st_degenerate(shape), check_case, ctx.scale(quick, thorough), label="degenerate-" + shape)
-    ctx.hypothesis(st_clean(), check_case, ctx.scale(320, 12800), label="clean")
-    ctx.hypothesis(st_shape(), check_case, ctx.scale(160, 6400), label="shape")
-    ctx.hypothesis(st_synth(), check_case, ctx.scale(240, 7200), label="synth")
+    ctx.hypothesis(st_clean(), check_case, ctx.scale(320, 8000), label="clean")
+    ctx.hypothesis(st_shape(), check_case, ctx.scale(160, 4000), label="shape")
+    ctx.hypothesis(st_synth(), check_case, ctx.scale(240, 4800), label="synth")
     if ctx.tier == "quick":
         # every well-formed recorded curve once; transformations derived from the run seed
         rng = np.random.RandomState(ctx.seed)
